@@ -1001,62 +1001,106 @@ def rule_S7(ctx):
     rr = _method(ctx, STREAM, "StreamReversed", "_read", "S7")
     sz = rr.args.args[1].arg
     prs = [p for p in run_paths(ctx, rr, rule="S7") if p.end == "return"]
+    from .sem import path_return_ast
     for p in prs:
-        calls = {}
-        for c, env, st in calls_on(p):
-            d = c.func.attr if isinstance(c.func, ast.Attribute) else (c.func.id if isinstance(c.func, ast.Name) else "")
-            calls.setdefault(d, []).append((c, env))
-            # one level of helper inlining: a module-level function of the same module receiving the raw bytes
-            if isinstance(c.func, ast.Name):
-                r = ctx.prog.resolve(rr._module, c.func.id)
-                if r and r[0] == "func" and r[2] is rr._module:
-                    h = r[1]
-                    hparams = [a_.arg for a_ in h.args.args]
-                    evc = evaluator(ctx, rr, env)
-                    henv = {pn: evc.ev(av) for pn, av in zip(hparams, c.args)}
-                    for k_ in c.keywords:
-                        henv[k_.arg] = evc.ev(k_.value)
-                    for hp in [q for q in run_paths(ctx, h, env0=henv, rule="S7") if q.end == "return"][:1]:
-                        for c2, env2, st2 in calls_on(hp):
-                            d2 = c2.func.attr if isinstance(c2.func, ast.Attribute) else (c2.func.id if isinstance(c2.func, ast.Name) else "")
-                            calls.setdefault(d2, []).append((c2, env2))
-        ok = True
-        det = []
-        sup = [x for x in calls.get("_read", []) if is_super_call(x[0], "_read")]
-        if not (len(sup) == 1 and evaluator(ctx, rr, sup[0][1]).ev(sup[0][0].args[0]) == A(sz)):
+        # the returned value as one expression (locals substituted), read as a pipeline of array operations whatever the spelling:
+        # np.flip(a, 0) / np.flipud(a) / a[::-1]; a.flatten() / a.ravel() / a.reshape(-1); np.reshape(a, s) / a.reshape(s)
+        e = path_return_ast(p)
+        ops, det, ok = [], [], True
+        ev0 = evaluator(ctx, rr, {})
+
+        def is_np(f, name):
+            return isinstance(f, ast.Attribute) and f.attr == name and isinstance(f.value, ast.Name) and f.value.id in ("np", "numpy")
+
+        cur = e
+        for _ in range(12):
+            if cur is None:
+                break
+            if isinstance(cur, ast.Call):
+                f = cur.func
+                kws = {k.arg: k.value for k in cur.keywords if k.arg}
+                if isinstance(f, ast.Attribute) and f.attr == "tobytes" and not cur.args:
+                    ops.append(("tobytes",))
+                    cur = f.value
+                    continue
+                if isinstance(f, ast.Name) and f.id == "bytes" and len(cur.args) == 1 and not kws:
+                    ops.append(("tobytes",))
+                    cur = cur.args[0]
+                    continue
+                if isinstance(f, ast.Attribute) and f.attr in ("flatten", "ravel") and not is_np(f, f.attr):
+                    o = kws.get("order", cur.args[0] if cur.args else None)
+                    ops.append(("flat", None if o is None else (o.value if isinstance(o, ast.Constant) else "?")))
+                    cur = f.value
+                    continue
+                if is_np(f, "ravel") and cur.args:
+                    o = kws.get("order", cur.args[1] if len(cur.args) > 1 else None)
+                    ops.append(("flat", None if o is None else (o.value if isinstance(o, ast.Constant) else "?")))
+                    cur = cur.args[0]
+                    continue
+                if (isinstance(f, ast.Attribute) and f.attr == "reshape") :
+                    if is_np(f, "reshape"):
+                        arr, shape = cur.args[0], (cur.args[1] if len(cur.args) > 1 else kws.get("newshape", kws.get("shape")))
+                        shape_args = [shape]
+                    else:
+                        arr, shape_args = f.value, list(cur.args)
+                    sk = [ev0.ev(x).key() for x in shape_args if x is not None]
+                    if sk in (["-1"], ["tuple(-1)"], ["[-1]"]):
+                        ops.append(("flat", kws.get("order").value if isinstance(kws.get("order"), ast.Constant) else None))
+                    else:
+                        ops.append(("reshape", ",".join(sk)))
+                    cur = arr
+                    continue
+                if is_np(f, "flipud") and len(cur.args) == 1:
+                    ops.append(("flip", 0))
+                    cur = cur.args[0]
+                    continue
+                if is_np(f, "flip") and cur.args:
+                    ax = kws.get("axis", cur.args[1] if len(cur.args) > 1 else None)
+                    ops.append(("flip", ax.value if isinstance(ax, ast.Constant) else "?"))
+                    cur = cur.args[0]
+                    continue
+                if is_np(f, "frombuffer") and cur.args:
+                    dt = kws.get("dtype", cur.args[1] if len(cur.args) > 1 else None)
+                    ops.append(("frombuffer", norm(dt) if dt is not None else "float"))
+                    cur = cur.args[0]
+                    continue
+                if is_super_call(cur, "_read"):
+                    ops.append(("read", ev0.ev(cur.args[0]).key() if cur.args else "?"))
+                    cur = None
+                    continue
+            if isinstance(cur, ast.Subscript):
+                sl = cur.slice
+                first = sl.elts[0] if isinstance(sl, ast.Tuple) and sl.elts else sl
+                rest = sl.elts[1:] if isinstance(sl, ast.Tuple) else []
+                full_ = lambda x: isinstance(x, ast.Slice) and x.lower is None and x.upper is None and (x.step is None or (isinstance(x.step, ast.Constant) and x.step.value == 1))  # noqa: E731
+                if isinstance(first, ast.Slice) and first.lower is None and first.upper is None and isinstance(first.step, ast.UnaryOp) and isinstance(first.step.op, ast.USub) \
+                        and isinstance(first.step.operand, ast.Constant) and first.step.operand.value == 1 and all(full_(x) for x in rest):
+                    ops.append(("flip", 0))
+                    cur = cur.value
+                    continue
+            ops.append(("?", norm(cur)[:60]))
+            break
+        ops.reverse()
+        kinds = [o[0] for o in ops]
+        if kinds != ["read", "frombuffer", "reshape", "flip", "flat", "tobytes"]:
             ok = False
-            det.append("does not read exactly `size` bytes through the base reader")
-        rs = calls.get("reshape", [])
-        if len(rs) != 1:
-            ok = False
-            det.append("no single reshape")
+            det.append(f"pipeline is {kinds}")
         else:
-            ev = evaluator(ctx, rr, rs[0][1])
-            shape = rs[0][0].args[-1]
-            sh = ev.ev(shape).key()
-            if sh not in (f"[floordiv({sz},self.sample_width),self.sample_width]", f"tuple(floordiv({sz},self.sample_width),self.sample_width)",
-                          f"tuple(-1,self.sample_width)", f"[-1,self.sample_width]"):
+            rd, fb, rs, fl, ft, tb = ops
+            if rd[1] != sz:
                 ok = False
-                det.append(f"reshape to {sh} is not rows of sample_width bytes")
-        fl = calls.get("flip", []) + calls.get("flipud", [])
-        if len(fl) != 1:
-            ok = False
-            det.append("no single flip")
-        elif fl[0][0].func.attr == "flip":
-            ax = fl[0][0].args[1] if len(fl[0][0].args) > 1 else next((k.value for k in fl[0][0].keywords if k.arg == "axis"), None)
-            if not (isinstance(ax, ast.Constant) and ax.value == 0):
+                det.append("does not read exactly `size` bytes through the base reader")
+            if not any(t in fb[1] for t in ("int8", "uint8", "'b'", "'B'", "byte")):
+                ok = False
+                det.append(f"bytes are reinterpreted as {fb[1]}, not single bytes")
+            if rs[1] not in (f"[floordiv({sz},self.sample_width),self.sample_width]", f"tuple(floordiv({sz},self.sample_width),self.sample_width)",
+                             "tuple(-1,self.sample_width)", "[-1,self.sample_width]", f"floordiv({sz},self.sample_width),self.sample_width", "-1,self.sample_width"):
+                ok = False
+                det.append(f"reshape to {rs[1]} is not rows of sample_width bytes")
+            if fl[1] != 0:
                 ok = False
                 det.append("flip is not along axis 0 (sample order)")
-        fb = calls.get("frombuffer", [])
-        if fb:
-            dt = norm(fb[0][0].args[1]) if len(fb[0][0].args) > 1 else norm(next((k.value for k in fb[0][0].keywords if k.arg == "dtype"), ast.Constant(value=None)))
-            if "int8" not in dt and "uint8" not in dt and "'b'" not in dt and "byte" not in dt:
-                ok = False
-                det.append(f"bytes are reinterpreted as {dt}, not single bytes")
-        fo = calls.get("flatten", []) + calls.get("ravel", []) + calls.get("tobytes", [])
-        for c, env in calls.get("flatten", []) + calls.get("ravel", []):
-            o = next((k.value for k in c.keywords if k.arg == "order"), c.args[0] if c.args else None)
-            if o is not None and not (isinstance(o, ast.Constant) and o.value == "C"):
+            if ft[1] not in (None, "C"):
                 ok = False
                 det.append("flatten order is not row-major")
         ctx.ob("S7", rr, "reversed read = base read of `size` bytes, reshaped to sample_width-byte rows, rows flipped, flattened row-major", ok, "; ".join(det), inst="reversed-read")
